@@ -94,6 +94,14 @@ func dumpValue(sb *strings.Builder, v reflect.Value, mode int, shift int) {
 			dumpPos(sb, int(t.Pos), mode, shift)
 			sb.WriteString(" ")
 			dumpPos(sb, int(t.End), mode, shift)
+			if mode == posExact {
+				// does anything (whitespace or comments) separate this token from the previous one?  (read by BadNode.SQL)
+				if len(t.Space) > 0 || len(t.Comments) > 0 {
+					sb.WriteString(" B1")
+				} else {
+					sb.WriteString(" B0")
+				}
+			}
 			sb.WriteString(")")
 			return
 		}
